@@ -187,7 +187,9 @@ Section Chain.
           match find_task_full_name false n1 names with
           | inl found =>
               let n2 := match i_ref d with inl _ => found | inr _ => n1 end in
-              if existsb (str_eqb n2) names then inl (dset n2 (inl n2) acc) else inr EOther
+              (* a reference by class names exactly the task of that class: a task of a similar name does not stand in *)
+              if existsb (str_eqb n2) names then inl (dset n2 (inl n2) acc)
+              else if i_required d then inr EMissingInput else inl (dset n1 (inr (i_default d)) acc)
           | inr EAmbiguous => inr EAmbiguous      (* several matches, none with priority: never "absent" *)
           | inr _ =>
               if i_required d then inr EMissingInput else inl (dset n1 (inr (i_default d)) acc)
